@@ -295,14 +295,28 @@ func Resolve(p *an.Prog) *Anchors {
 	}
 
 	// segment matcher: method of Segment taking *Context returning bool
+	var matcherCands []*types.Func
 	for i := 0; i < a.SegmentT.NumMethods(); i++ {
 		m := a.SegmentT.Method(i)
 		sig := m.Type().(*types.Signature)
 		if sig.Params().Len() == 1 && isPtrTo(sig.Params().At(0).Type(), a.ContextT) && sig.Results().Len() == 1 {
 			if b, ok := sig.Results().At(0).Type().(*types.Basic); ok && b.Kind() == types.Bool {
-				setFn(&a.SegmentMatch, p.SSA.FuncValue(m), "segment matcher")
+				matcherCands = append(matcherCands, m)
 			}
 		}
+	}
+	if len(matcherCands) > 1 {
+		// helpers extracted from the matcher share its signature: the matcher is the exported one
+		var exp []*types.Func
+		for _, m := range matcherCands {
+			if m.Exported() {
+				exp = append(exp, m)
+			}
+		}
+		matcherCands = exp
+	}
+	for _, m := range matcherCands {
+		setFn(&a.SegmentMatch, p.SSA.FuncValue(m), "segment matcher")
 	}
 	if a.SegmentMatch == nil {
 		an.Fatalf("UNRESOLVED anchor: segment matcher")
